@@ -7,6 +7,7 @@
   tie is about the complete Python result.
 -/
 import PyModeS.Tie.Common
+import PyModeS.Tie.Icao
 import PyModeS.Generated.Src.surv
 import PyModeS.Generated.Src.allcall
 import PyModeS.Model.Misc
@@ -197,12 +198,6 @@ theorem capability_tie (m : Msg) (h : IsHex m) (hl : 2 ≤ m.length) :
     e7, pyTruth_bool, decide_eq_true_eq, Res.pure_eq, caText]
   split_ifs <;> rfl
 
-theorem common_crc_false (m : Msg) (h : IsHex m) (hl : 6 ≤ m.length) :
-    Gen.Ext.common_crc (.str m) (.bool false) = .val (Val.ofNat (crcBitsPy (hex2binM m))) := by
-  have hall : (m.all fun c => (hexVal? c).isSome) = true := List.all_eq_true.mpr h
-  have hlt : ¬ (m.length < 6) := by omega
-  simp only [Gen.Ext.common_crc, hall, hlt, Bool.not_true, Bool.false_eq_true, or_self, if_false, Val.truth, crc]
-
 /-- `allcall.interrogator(msg)`: the interrogator-code string -/
 theorem interrogator_tie (m : Msg) (h : IsHex m) (hl : 6 ≤ m.length) :
     Gen.allcall.interrogator (.str m) =
@@ -212,7 +207,7 @@ theorem interrogator_tie (m : Msg) (h : IsHex m) (hl : 6 ≤ m.length) :
   apply allcall_guard
   intro _
   unfold Gen.allcall.interrogator_undecorated
-  simp only [common_crc_false m h hl, bind_val']
+  simp only [crc_false_bits m h hl, bind_val']
   generalize crcBitsPy (hex2binM m) = r
   have hgt : pyGt (Val.ofNat r) (Val.num 79) = .val (.bool (decide (79 < r))) := by
     simp only [Val.ofNat, pyGt_num]
